@@ -400,6 +400,8 @@ def driver_env(extra: dict | None = None) -> dict:
 def run_driver(name: str, args: list[str], wd: Path, timeout: int = 1500, env: dict | None = None) -> dict:
     """Run harness/drivers/<name>.py; it must print one JSON object (its summary) on its last stdout line."""
     cmd = ["timeout", str(timeout), PY, str(HARNESS / "drivers" / (name + ".py"))] + args
+    if os.environ.get("VERIF_PYCOV"):       # development aid (bin/pycov): line coverage of the repository under the drivers
+        cmd = cmd[:3] + ["-m", "coverage", "run", "--rcfile", os.environ["VERIF_PYCOV"] + "/coveragerc"] + cmd[3:]
     t0 = time.time()
     p = subprocess.run(cmd, cwd=str(wd), env=driver_env(env), stdout=subprocess.PIPE, stderr=subprocess.PIPE, text=True)
     (wd / (name + ".driver.err")).write_text(p.stderr)
@@ -626,7 +628,8 @@ class Check:
             print("   " + json.dumps({k: v[k] for k in v if k not in ('replay',)}, default=str)[:600])
         if len(self.violations) > 50:
             print(f"   ... and {len(self.violations) - 50} more violations")
-        shutil.rmtree(self.wd, ignore_errors=True)
+        if not os.environ.get("VERIF_KEEP"):          # development aid: keep the recorded traces for inspection
+            shutil.rmtree(self.wd, ignore_errors=True)
         status = 1 if self.violations else 0
         print(f"[{self.prop}] tier={self.tier} seed={self.seed} states={self.states} transitions={self.transitions} "
               f"traces={self.traces} evaluations={self.evaluations} violations={len(self.violations)} "
